@@ -102,6 +102,15 @@ func guardsAt(fn *Func, target ast.Node) []guardAt {
 					out = append(out, guardAt{ifs.Cond, false})
 				}
 			}
+		case *ast.CommClause:
+			for _, st := range x.Body {
+				if st == next {
+					break
+				}
+				if ifs, ok := st.(*ast.IfStmt); ok && ifs.Else == nil && ifs.Init == nil && blockTerminates(fn.Pkg, ifs.Body) {
+					out = append(out, guardAt{ifs.Cond, false})
+				}
+			}
 		}
 	}
 	return out
@@ -2138,4 +2147,148 @@ func blockSkips(b *ast.BlockStmt) bool {
 	}
 	br, ok := b.List[len(b.List)-1].(*ast.BranchStmt)
 	return ok && (br.Tok == token.CONTINUE || br.Tok == token.BREAK)
+}
+
+// mustReach: on every path through the statement list that does not leave the
+// function, a statement satisfying pred is reached (branches: both arms;
+// loops are not credited).
+func mustReach(list []ast.Stmt, pred func(ast.Stmt) bool) bool {
+	for _, st := range list {
+		if pred(st) {
+			return true
+		}
+		switch x := st.(type) {
+		case *ast.ReturnStmt:
+			return true
+		case *ast.BranchStmt:
+			return false
+		case *ast.BlockStmt:
+			if mustReach(x.List, pred) {
+				return true
+			}
+		case *ast.IfStmt:
+			thenOK := mustReach(x.Body.List, pred)
+			elseOK := false
+			switch e := x.Else.(type) {
+			case *ast.BlockStmt:
+				elseOK = mustReach(e.List, pred)
+			case *ast.IfStmt:
+				elseOK = mustReach([]ast.Stmt{e}, pred)
+			}
+			if thenOK && elseOK {
+				return true
+			}
+		}
+	}
+	return false
+}
+
+// C03-R10: an evaluation succeeds only behind a fresh traversal of every root,
+// and every waiter reports back.
+//
+// In Eval: (a) the return that may carry a nil error (`return state.Err()`)
+// is excluded when state.Done() is false, and in the same iteration of the
+// evaluation loop it is preceded by a loop over the roots that
+// unconditionally Enqueues each of them — otherwise "done" is the verdict of
+// an empty or stale traversal and Eval reports success with work outstanding;
+// (b) every other return hands back an error variable that a preceding guard
+// excludes from being nil; (c) the goroutine started per runnable task sends
+// exactly one message, on the error channel or on the done channel, on every
+// path — a waiter that ends silently leaves Eval waiting for ever.
+func c03r10(c *RC) {
+	pr := c.P
+	fn := c.MustFn("exec.Eval")
+	if fn == nil {
+		return
+	}
+	fq := fn.QName()
+	nret := 0
+	inspectNoLit(fn.Body, func(nd ast.Node) bool {
+		ret, ok := nd.(*ast.ReturnStmt)
+		if !ok || len(ret.Results) != 1 {
+			return true
+		}
+		nret++
+		if k, ok := ast.Unparen(ret.Results[0]).(*ast.CallExpr); ok && fn.Pkg.CalleeName(k) == "exec.(*state).Err" {
+			doneFalse := func(e ast.Expr) (bool, bool) {
+				if kk, ok := ast.Unparen(e).(*ast.CallExpr); ok && fn.Pkg.CalleeName(kk) == "exec.(*state).Done" {
+					return false, true
+				}
+				return false, false
+			}
+			behindDone := excludedBy(guardsAt(fn, ret), doneFalse)
+			// the traversal of the roots earlier in the same loop body
+			traversed := false
+			for _, anc := range pathTo(fn.Body, ret) {
+				fs, ok := anc.(*ast.ForStmt)
+				if !ok {
+					continue
+				}
+				for _, st := range fs.Body.List {
+					if st.Pos() > ret.Pos() {
+						break
+					}
+					rs, ok := st.(*ast.RangeStmt)
+					if !ok || rs.Value == nil {
+						continue
+					}
+					if t := fn.Pkg.Info.TypeOf(rs.X); t == nil || !strings.HasSuffix(typeString(t), "Task") || !strings.HasPrefix(typeString(t), "[]*") {
+						continue
+					}
+					for _, bs := range rs.Body.List {
+						if es, ok := bs.(*ast.ExprStmt); ok {
+							if ek, ok := es.X.(*ast.CallExpr); ok && fn.Pkg.CalleeName(ek) == "exec.(*state).Enqueue" && len(ek.Args) == 1 && expr(ek.Args[0]) == expr(rs.Value) {
+								traversed = true
+							}
+						}
+					}
+				}
+			}
+			c.Check(behindDone && traversed, fq+"|success-only-behind-a-traversal-that-found-everything-done", pr.Pos(ret.Pos()),
+				"Eval returns the traversal's verdict (possibly success) on a path where state.Done() is not known to be true, or without having Enqueued every root first in that round: the evaluation reports success while tasks its roots need are outstanding, lost or were never looked at")
+			return true
+		}
+		// any other return: an error variable known non-nil
+		id, ok := ast.Unparen(ret.Results[0]).(*ast.Ident)
+		nonNil := false
+		if ok {
+			isNil := func(e ast.Expr) (bool, bool) {
+				if x, nn, ok := nilTest(e); ok && x == id.Name {
+					return !nn, true
+				}
+				return false, false
+			}
+			nonNil = excludedBy(guardsAt(fn, ret), isNil)
+		}
+		c.Check(nonNil, fq+"|other-returns-carry-an-error", pr.Pos(ret.Pos()),
+			"Eval returns "+expr(ret.Results[0])+" on a path where it may be nil: a waiter's report of failure ends the evaluation as a success")
+		return true
+	})
+	c.Floor("returns of Eval", nret, 2)
+	// (c) the waiter
+	nw := 0
+	inspectNoLit(fn.Body, func(nd ast.Node) bool {
+		g, ok := nd.(*ast.GoStmt)
+		if !ok {
+			return true
+		}
+		lit, ok := g.Call.Fun.(*ast.FuncLit)
+		if !ok {
+			return true
+		}
+		nw++
+		isSend := func(st ast.Stmt) bool { _, ok := st.(*ast.SendStmt); return ok }
+		sends := 0
+		inspectNoLit(lit.Body, func(m ast.Node) bool {
+			if _, ok := m.(*ast.SendStmt); ok {
+				sends++
+			}
+			return true
+		})
+		// the tail of the literal: the statements after the last statement that contains no send
+		c.Check(mustReach(lit.Body.List, isSend) && sends == 2, fq+"|every-waiter-reports-back", pr.Pos(lit.Pos()),
+			"the goroutine Eval starts for a runnable task does not send exactly one message (error or done) on every path: an evaluation whose waiter ends silently waits for ever")
+		return true
+	})
+	c.Floor("waiter goroutines in Eval", nw, 1)
 }
